@@ -142,6 +142,11 @@ pub struct Realizer {
     pub counter: u32,
     /// optional table of generated strings: property index >= 3 and value index >= 4 pick from it
     pub strings: Vec<String>,
+    /// record, in about a third of the updates, the new value as the previous value: what a
+    /// caller holding a stale `TaskData` records when it writes back the value it believes the
+    /// property has.  The previous value is local bookkeeping for undo; nothing about sync may
+    /// depend on it.
+    pub stale_old: bool,
 }
 
 impl Realizer {
@@ -150,6 +155,7 @@ impl Realizer {
             replica,
             counter: 0,
             strings: vec![],
+            stale_old: false,
         }
     }
 
@@ -201,7 +207,13 @@ impl Realizer {
         } else {
             value
         };
-        let old_value = local.0[&uuid].get(prop).cloned();
+        let mut old_value = local.0[&uuid].get(prop).cloned();
+        if self.stale_old {
+            let h = (tsv as i32 as u32).wrapping_mul(31) ^ (uuid.as_u128() as u32) ^ (prop.len() as u32 * 7) ^ value.as_ref().map(|v| v.len() as u32).unwrap_or(5);
+            if h % 3 == 0 {
+                old_value = value.clone();
+            }
+        }
         out.push(Operation::Update {
             uuid,
             property: prop.to_string(),
